@@ -554,3 +554,40 @@ pub fn finddata_event(store: &AnnotationStore, a: &Value, style: IdStyle) -> (St
         Err(_) => ("panic".into(), json!({"has": true, "items": []})),
     }
 }
+
+// ------------------------------------------------------------------------------------------ QueryAdd event (C14)
+
+/// ADD ANNOTATION ?new WITH [ID ..;] [DATA set key value;]* TARGET ?y; { sub-query }   (the sub-query binds ?y)
+pub fn query_add(store: &mut AnnotationStore, a: &Value, style: IdStyle) -> Result<i64, StamError> {
+    let sub: QAst = serde_json::from_value(a["sub"].clone()).expect("harness: sub-query ast");
+    let subtext = build_query(&sub, style).to_string()?;
+    let mut text = String::from("ADD ANNOTATION ?new WITH ");
+    let id = a["id"].as_str().unwrap_or("");
+    if !id.is_empty() {
+        text.push_str(&format!("ID {}; ", quote(&style.conc(id))));
+    }
+    for d in a["data"].as_array().cloned().unwrap_or_default() {
+        let db: DB = serde_json::from_value(d).expect("harness: data builder");
+        text.push_str(&format!("DATA {} {} {}; ", quote(&style.conc(&db.set.id)), quote(&style.conc(&db.key.id)), quote(&style.conc(&db.val.s))));
+    }
+    text.push_str(&format!("TARGET ?{}; {{ {} }}", sub.name, subtext));
+    if std::env::var("VERIF_DEBUG_QUERY").is_ok() {
+        eprintln!("QueryAdd: {}", text);
+    }
+    let text: &'static str = leak(text);
+    let query: Query<'static> = text.try_into().map_err(|e| {
+        if std::env::var("VERIF_DEBUG_QUERY").is_ok() {
+            eprintln!("  parse error: {}", e);
+        }
+        e
+    })?;
+    // (the store is only borrowed for the call: results are drained at once)
+    let store: &'static mut AnnotationStore = unsafe { &mut *(store as *mut AnnotationStore) };
+    let n = store.query_mut(query).map_err(|e| {
+        if std::env::var("VERIF_DEBUG_QUERY").is_ok() {
+            eprintln!("  query error: {}", e);
+        }
+        e
+    })?.count();
+    Ok(n as i64 * 0)
+}
